@@ -958,6 +958,30 @@ func ruleKeyAddr(c *Ctx, m *ttModel, rule string) {
 			}
 			return fail(v, "AddrPort().Addr() keeps the IPv4-mapped form (no Unmap)")
 		}
+		// a helper of the repo (ipFromAddr(addr) (netip.Addr, error)): every non-zero value it returns at this result index
+		// is canonical, judged inside the helper (its address parameter stands for the caller's address)
+		if h := cc.Call.StaticCallee(); h != nil && p.InRepo(h) && len(h.Blocks) > 0 && i >= 0 {
+			nret := 0
+			for _, r := range eng.Returns(h) {
+				if i >= len(r.Results) {
+					return fail(v, "helper result not found")
+				}
+				rv := r.Results[i]
+				if sv := p.ReachingStore(rv, r); sv != nil {
+					rv = sv
+				}
+				if eng.IsZeroValue(p.Resolve(rv)) || isZeroStructLoad(p, rv) {
+					continue
+				}
+				nret++
+				if !canon(rv, d+1) {
+					return false
+				}
+			}
+			if nret > 0 {
+				return true
+			}
+		}
 		return fail(v, "the address is transformed by "+eng.CalleeName(&cc.Call))
 	}
 	n := 0
